@@ -168,6 +168,13 @@ func manageCanaryPodFailures(pods []*v1.Pod, params *Parameters, result *Result,
 	startCondition := conditions.GetExtendedDaemonSetReplicaSetStatusCondition(result.NewStatus, v1alpha1.ConditionTypeCanary)
 	restartCondition := conditions.GetExtendedDaemonSetReplicaSetStatusCondition(params.NewStatus, v1alpha1.ConditionTypePodRestarting)
 
+	// Unpausing is a manual action and takes precedence over pausing (never over failing), also when there is
+	// currently no canary pod to evaluate.
+	if result.IsUnpaused && !result.IsFailed {
+		result.IsPaused = false
+		result.PausedReason = ""
+	}
+
 	// Note that we still need to evaluate restarts regardless of the enabled autoPause or autoFail
 	// since we maintain the restarting condition that can be checked by canary.noRestartsDuration
 	for _, pod := range pods {
